@@ -50,7 +50,7 @@ fn order(kind: &str, n: i64) -> Vec<i64> {
     }
 }
 
-fn comb(n: usize, x0: f64) -> Polygon<f64> {
+pub fn comb(n: usize, x0: f64) -> Polygon<f64> {
     // n teeth: a comb whose teeth all start at x0 and extend to the right: many segments on the sweep line
     let mut pts = Vec::new();
     pts.push(Coord { x: x0, y: 0.0 });
